@@ -613,11 +613,14 @@ impl ZiPatch {
                                     // reverse reading crc32
                                     file.seek(SeekFrom::Current(-4))?;
 
-                                    let mut data: Vec<u8> =
-                                        Vec::with_capacity(fop.file_size as usize);
+                                    // file_size comes from the patch: grow as blocks arrive instead of trusting it
+                                    let mut data: Vec<u8> = Vec::new();
 
                                     while data.len() < fop.file_size as usize {
-                                        data.append(&mut read_data_block_patch(&mut file).unwrap());
+                                        data.append(
+                                            &mut read_data_block_patch(&mut file)
+                                                .ok_or(PatchError::ParseError)?,
+                                        );
                                     }
 
                                     // re-apply crc32
